@@ -75,6 +75,12 @@ pub fn alphabet() -> Vec<Vec<u8>> {
         vec![0x01],       // ADD
         vec![0x60, 0x01], // PUSH1 1
         vec![0x60, 0x20], // PUSH1 32
+        {
+            let mut v = vec![0x7f]; // PUSH32 2^256-1
+            v.extend_from_slice(&[0xff; 32]);
+            v
+        },
+        vec![0x67, 0x80, 0, 0, 0, 0, 0, 0, 0], // PUSH8 2^63
         vec![0x5b],       // NOP (JUMPDEST)
         vec![0xe4],       // RETF
         vec![0xd0],       // DATALOAD
